@@ -8,6 +8,9 @@ pub mod storage;
 pub mod buflog;
 pub mod smcrash;
 pub mod replconv;
+pub mod metacrash;
+pub mod scanrace;
+pub mod ttl;
 
 use std::path::Path;
 use std::sync::Arc;
